@@ -17,3 +17,8 @@ package stats
 //@   trusted
 //@ func (Statser).Report
 //@   trusted
+//@ func (Statser).NotifyFlush
+//@   trusted
+//@ func FromContext
+//@   trusted
+//@   ensures result != nil
